@@ -10,6 +10,7 @@ import Mwp.Model.DeltaGraph
 import Mwp.Model.Choices
 import Mwp.WireAst
 import Mwp.Model.Analysis
+import Mwp.Model.Run
 import Mwp.Spec.Calculus
 import Mwp.Lemmas.RelDefs
 import Mwp.Spec.Syntax
@@ -263,23 +264,34 @@ def loopCompatOp (j : Json) : R Json := do
 def acceptedOf (c : Choices.T) (index : Nat) : List (List Nat) :=
   (allVectors Gen.domain index).filter (Choices.isValid c)
 
+def funcResJson (r : Analysis.FuncRes) (tabulate : Bool) : Json :=
+  let acc := match r.choices with
+    | some c => if tabulate && r.index ≤ 7 then jList (jList jNat) (acceptedOf c r.index) else Json.null
+    | none => Json.null
+  Json.mkObj [
+    ("name", Json.str r.name), ("infinite", Json.bool r.infinite), ("variables", jStrs r.variables),
+    ("relation", match r.relation with | some rel => jRelation rel | none => Json.null),
+    ("has_choices", Json.bool r.choices.isSome), ("accepted", acc),
+    ("index", jNat r.index),
+    ("inf_flows", match r.infFlows with | some s => Json.str s | none => Json.null),
+    ("skipped", jStrs r.skipped)]
+
 def funcOp (j : Json) : R Json := do
   let n ← nodeOfJson (← field j "ast")
   let stop ← fBool j "stop"
   let tabulate := (fOpt j "tabulate").isSome
   match Analysis.func n stop with
   | .error e => pure (jRaised e)
-  | .ok r =>
-    let acc := match r.choices with
-      | some c => if tabulate && r.index ≤ 7 then jList (jList jNat) (acceptedOf c r.index) else Json.null
-      | none => Json.null
-    pure (ok (Json.mkObj [
-      ("name", Json.str r.name), ("infinite", Json.bool r.infinite), ("variables", jStrs r.variables),
-      ("relation", match r.relation with | some rel => jRelation rel | none => Json.null),
-      ("has_choices", Json.bool r.choices.isSome), ("accepted", acc),
-      ("index", jNat r.index),
-      ("inf_flows", match r.infFlows with | some s => Json.str s | none => Json.null),
-      ("skipped", jStrs r.skipped)]))
+  | .ok r => pure (ok (funcResJson r tabulate))
+
+/-- file level: `Analysis.run` over the function definitions of a file -/
+def runFileOp (j : Json) : R Json := do
+  let fs ← (← arrOf (← field j "asts")).mapM nodeOfJson
+  let fin ← fBool j "fin"
+  let strict ← fBool j "strict"
+  match Run.run fs fin strict with
+  | .error e => pure (jRaised e)
+  | .ok rs => pure (ok (jList (fun (e : String × Analysis.FuncRes) => Json.arr #[Json.str e.1, funcResJson e.2 true]) rs))
 
 def boundAtOp (j : Json) : R Json := do
   let r ← relationOf (← field j "relation")
@@ -522,6 +534,23 @@ def loopInspectOp (j : Json) : R Json := do
             | some c => if index ≤ 6 then jList (jList jNat) (acceptedOf c index) else Json.null
             | none => Json.null)]) vs)]))
 
+def vresJson (index : Nat) (v : LoopAnalysis.VRes) : Json :=
+  Json.mkObj [("name", Json.str v.name),
+    ("flags", Json.arr #[Json.bool v.isM, Json.bool v.isW, Json.bool v.isP]),
+    ("accepted", match v.choices with
+      | some c => if index ≤ 6 then jList (jList jNat) (acceptedOf c index) else Json.null
+      | none => Json.null)]
+
+/-- file level: `LoopAnalysis.run` over the function definitions of a file: which loops are
+    analysed, on which tree -/
+def runLoopsOp (j : Json) : R Json := do
+  let fs ← (← arrOf (← field j "asts")).mapM nodeOfJson
+  let strict ← fBool j "strict"
+  match Run.runLoops fs strict with
+  | .error e => pure (jRaised e)
+  | .ok rs =>
+    pure (ok (jList (fun (e : String × List Node) => Json.arr #[Json.str e.1, jList jNodeAst e.2]) rs))
+
 def classOfColumn (col : List Scalar) : Scalar := col.foldl Spec.docSum .o
 
 /-- C08 predicate on what loop mode reported for ONE loop (analysed on its own). -/
@@ -637,6 +666,8 @@ def dispatch (op : String) (j : Json) : R Json :=
   | "model.find_loops" => Ops.findLoopsOp j
   | "model.loop_compat" => Ops.loopCompatOp j
   | "model.func" => Ops.funcOp j
+  | "model.run_file" => Ops.runFileOp j
+  | "model.run_loops" => Ops.runLoopsOp j
   | "model.bound_at" => Ops.boundAtOp j
   | "model.apply_choice" => Ops.applyChoiceOp j
   | "spec.sem_table" => Ops.semTableOp j
